@@ -93,6 +93,77 @@ def run():
     open(cor, "w").write("\n".join(lines) + "\n")
     expect("JudgeVM (one Alt target of a dumped program changed)", ok, vm_mismatches(cor))
 
+    # 3b. the compile chain: recorded trees against IRSem / OptPasses / StartPred / Emit
+    def ir_lines(path):
+        res, _ = SC.judge_sharded("JudgeIR", "JudgeIR.cfg", path, work, "stir", parts=1, env={"MAXHAYS": 1000})
+        kf = {f["id"] for f in C.load_known_findings()["findings"]}
+        return [j for r in res for j in r.jlines if j["kind"] in ("irparse", "irpass", "irwf", "opttrace", "predtrace", "predspec", "emittrace")
+                and not (j.get("dev") and j["dev"][0] in kf)]
+    ok = len(ir_lines(paths["vm"]))
+    base = open(paths["vm"]).read().splitlines()
+
+    def corrupt_ir(fn, kinds, name):
+        lines = list(base)
+        for i, l in enumerate(lines):
+            r = json.loads(l)
+            if r.get("ir") and fn(r):
+                lines[i] = json.dumps(r)
+                break
+        cor = os.path.join(work, "ir_corrupt.ndjson")
+        open(cor, "w").write("\n".join(lines) + "\n")
+        expect(name, ok, sum(1 for j in ir_lines(cor) if j["kind"] in kinds))
+
+    def find(n, t):
+        if isinstance(n, dict):
+            if n.get("t") == t:
+                return n
+            for x in n.values():
+                f = find(x, t)
+                if f:
+                    return f
+        elif isinstance(n, list):
+            for x in n:
+                f = find(x, t)
+                if f:
+                    return f
+        return None
+
+    def c_stage(r):          # the last recorded tree matches another character
+        if len(r["ir"]) < 2:
+            return False
+        b = find(r["ir"][-1]["ir"], "bytes")
+        if not b:
+            return False
+        b["bs"] = [x + 1 for x in b["bs"]]
+        return True
+    corrupt_ir(c_stage, ("irpass",), "JudgeIR / IRSem (a literal of the last recorded tree changed: a pass changed the meaning)")
+    corrupt_ir(c_stage, ("opttrace",), "JudgeIR / OptPasses (the same corruption: the recorded run is not the specification's)")
+
+    def c_parse(r):          # the parsed tree loses a capture group's end
+        g = find(r["ir"][0]["ir"], "grp")
+        if not g:
+            return False
+        g["id"] += 1
+        return True
+    corrupt_ir(c_parse, ("irparse", "irwf"), "JudgeIR / IRSem vs ESSem (a group id of the parsed tree changed)")
+
+    def c_pred(r):
+        sp = r["progs"]["opt"]["start_pred"]
+        if sp["kind"] != "ByteSet":
+            return False
+        sp["bytes"][0] += 1
+        return True
+    corrupt_ir(c_pred, ("predtrace",), "JudgeIR / StartPred (one byte of a dumped start predicate changed)")
+
+    def c_emit(r):
+        ins = r["progs"]["noopt"]["insns"]
+        j = next((q for q, x in enumerate(ins) if x["op"] == "Jump"), None)
+        if j is None:
+            return False
+        ins[j]["target"] += 1
+        return True
+    corrupt_ir(c_emit, ("emittrace",), "JudgeIR / Emit (one Jump target of a dumped program changed)")
+
     # 4. CodePointSet transitions
     res = C.tlc("MCIntervalSet", "MCIntervalSet.cfg", workers=4, xmx="4g", timeout=900, workdir=work)
     tl = [j for j in res.jlines][:2000]
